@@ -50,7 +50,8 @@ chk(
     "positions in mid-walk; root removal is judged for exactly one DirDeletedEvent and a stopped emitter; every second batch uses a "
     "lazily failing listdir (a generator, as a scandir-based listdir would be); stop() landing inside a walk must not change the baseline "
     "the in-flight poll is diffed against; relative and non-normalised watch roots; ELOOP/EIO on per-entry stat calls; thread mode "
-    "judges what the emitter queued (the delivered stream only up to coalesced adjacent duplicates).",
+    "judges what the emitter queued (the delivered stream only up to coalesced adjacent duplicates); a tree 300 and 1 100 levels "
+    "deep (the latter is the recorded finding F33).",
     "Trusted: the VFS (POSIX-like lookup semantics), the reference diff in c10.py. Direct mode calls on_thread_start()/queue_events(0) "
     "from the harness thread; thread mode installs each scripted state atomically at the start of a walk.",
     category="fault_enumeration",
@@ -107,7 +108,7 @@ chk(
     "name pairs (thorough: complete; quick: strided) built as real directories below a base path that repeats the same names; "
     "generate_sub_moved_events / generate_sub_created_events output compared as a multiset with a reference from the harness's own "
     "scandir walk + os.path.join; parents before children; all synthetic; path type preserved; random trees also hold symbolic links "
-    "(one descendant each, nothing behind them). Third anchor (the watch-path map rewrite): directed and random rename / name re-use "
+    "(one descendant each, nothing behind them); a sub-directory that vanishes during the walk; a tree 1 100 levels deep. Third anchor (the watch-path map rewrite): directed and random rename / name re-use "
     "histories on a real recursive inotify observer, judged by probes in every directory and by replay.",
     "Trusted: the reference walk. An absent source ('' for the full emitter) may be str or bytes.",
 )
